@@ -72,6 +72,99 @@ def modeReadAndAppendUnderOneLock : Bool :=
 /-- the flush loop invokes the user callback with no Transport mutex held -/
 def flushCallbackUnlocked : Bool := (fn "setReadMode").contains ("call", "user:cb", "")
 
+/-! ### C03: the functions the model mirrors are PINNED: any change to their lock / wait / notify / write / return skeleton (not
+only the facts above) stops the build until model and literal are looked at again -/
+def expOnData : List Event :=
+  [("lock", "syncMutex", ""), ("read", "readModes", "syncMutex"), ("read", "readModes", "syncMutex"), ("read", "receiveBuffers", "syncMutex"),
+   ("read", "receiveBuffers", "syncMutex"), ("read", "shuttingDown", "syncMutex"), ("read", "waiters", "syncMutex"), ("return", "void", "syncMutex"),
+   ("read", "overflow", "syncMutex"), ("return", "void", "syncMutex"), ("cmp", "size+chunk>max", "syncMutex"), ("write", "overflow=true", "syncMutex"),
+   ("notify_all", "buf.cv", "syncMutex"), ("return", "void", "syncMutex"), ("append", "data", "syncMutex"),
+   ("write", "hasData=!bufIt->second->data.empty()", "syncMutex"), ("notify_one", "buf.cv", "syncMutex"), ("return", "void", "syncMutex"),
+   ("return", "void", "syncMutex"), ("unlock", "syncMutex", "syncMutex"), ("lock", "callbackMutex", ""), ("unlock", "callbackMutex", "callbackMutex"),
+   ("call", "user:cb", "")]
+def expReceiveSync : List Event :=
+  [("call", "engine.getIoThreadId", ""), ("throw", "logic_error", ""), ("lock", "syncMutex", ""), ("read", "shuttingDown", "syncMutex"),
+   ("return", "err:ShuttingDown", "syncMutex"), ("read", "receiveBuffers", "syncMutex"), ("read", "receiveBuffers", "syncMutex"),
+   ("write", "receiveBuffers", "syncMutex"), ("read", "waiters", "syncMutex"), ("read", "flushing", "syncMutex"), ("return", "err:Cancelled", "syncMutex"),
+   ("read", "flushing", "syncMutex"), ("guard", "ParkGuard:waiters", "syncMutex"), ("guard", "ParkGuard:activeReceives", "syncMutex"),
+   ("read", "waiters", "syncMutex"), ("wait_until", "buf.cv", "syncMutex"), ("return", "buf->hasData||buf->close", "syncMutex"),
+   ("read", "hasData", "syncMutex"), ("read", "closed", "syncMutex"), ("read", "overflow", "syncMutex"), ("read", "shuttingDown", "syncMutex"),
+   ("return", "err:Timeout", "syncMutex"), ("cmp", "data-nonempty", "syncMutex"), ("cmp", "min(len,size)", "syncMutex"), ("consume", "data", "syncMutex"),
+   ("write", "hasData=!buf->data.empty()", "syncMutex"), ("read", "hasData", "syncMutex"), ("return", "ok", "syncMutex"), ("read", "overflow", "syncMutex"),
+   ("return", "err:BufferOverflow", "syncMutex"), ("read", "closed", "syncMutex"), ("erase", "receiveBuffers", "syncMutex"), ("erase", "readModes", "syncMutex"),
+   ("return", "err:PeerClosed", "syncMutex"), ("return", "err:ShuttingDown", "syncMutex"), ("unlock", "syncMutex", "syncMutex")]
+def expSetReadMode : List Event :=
+  [("call", "engine.getIoThreadId", ""), ("throw", "logic_error", ""), ("return", "false", ""), ("lock", "syncMutex", ""),
+   ("read", "receiveBuffers", "syncMutex"), ("read", "receiveBuffers", "syncMutex"), ("read", "closed", "syncMutex"), ("return", "true", "syncMutex"),
+   ("read", "readModes", "syncMutex"),
+   ("read", "readModes", "syncMutex"), ("cmp", "flush-iff:old!=Async&&new==Async", "syncMutex"), ("write", "readModes=mode", "syncMutex"),
+   ("read", "receiveBuffers", "syncMutex"), ("read", "receiveBuffers", "syncMutex"), ("write", "receiveBuffers", "syncMutex"), ("return", "true", "syncMutex"),
+   ("unlock", "syncMutex", "syncMutex"), ("lock", "callbackMutex", ""), ("unlock", "callbackMutex", "callbackMutex"), ("lock", "syncMutex", ""),
+   ("read", "shuttingDown", "syncMutex"), ("return", "false", "syncMutex"), ("read", "receiveBuffers", "syncMutex"), ("read", "receiveBuffers", "syncMutex"),
+   ("write", "readModes=Async", "syncMutex"), ("return", "true", "syncMutex"), ("guard", "FlushGuard", "syncMutex"), ("unlock", "syncMutex", "syncMutex"),
+   ("lock", "syncMutex", ""), ("read", "shuttingDown", "syncMutex"), ("return", "false", "syncMutex"), ("cmp", "data-nonempty", "syncMutex"),
+   ("take", "data", "syncMutex"), ("write", "hasData=false", "syncMutex"), ("else", "", "syncMutex"), ("write", "readModes=Async", "syncMutex"),
+   ("break", "", "syncMutex"), ("unlock", "syncMutex", "syncMutex"), ("call", "user:cb", ""), ("return", "true", "")]
+/-- step 6 of the `onClose` handler: everything from its LAST acquisition of `syncMutex` on (the part before it is C04's and C05's) -/
+def expOnCloseTail : List Event :=
+  [("lock", "syncMutex", ""), ("read", "receiveBuffers", "syncMutex"), ("read", "receiveBuffers", "syncMutex"), ("write", "closed=true", "syncMutex"),
+   ("notify_all", "buf.cv", "syncMutex"), ("write", "closed=true", "syncMutex"), ("write", "receiveBuffers", "syncMutex"), ("erase", "readModes", "syncMutex"),
+   ("read", "receiveBuffers", "syncMutex"), ("read", "receiveBuffers", "syncMutex"), ("read", "receiveBuffers", "syncMutex"), ("read", "closed", "syncMutex"),
+   ("read", "hasData", "syncMutex"), ("read", "waiters", "syncMutex"), ("read", "flushing", "syncMutex"), ("erase", "receiveBuffers", "syncMutex"),
+   ("unlock", "syncMutex", "syncMutex"), ("lock", "userDataMutex", ""), ("unlock", "userDataMutex", "userDataMutex")]
+/-- the suffix of `l` that starts at its last `("lock", "syncMutex", "")` -/
+def lastSyncSection : List Event → List Event
+  | [] => []
+  | e :: rest =>
+    if rest.contains ("lock", "syncMutex", "") then lastSyncSection rest
+    else if e == ("lock", "syncMutex", "") then e :: rest else lastSyncSection rest
+/-- T8: step 6 of the `onClose` handler erases the session's `readModes` entry exactly once and UNCONDITIONALLY (at the brace depth of
+the critical section itself, under no `if`/`else`/loop - in particular not only when the buffer is empty): a closed session has no
+mode entry, so a later `setReadMode(sid, Async)` takes no flush path -/
+def closeForgetsModeUnconditionally : Bool :=
+  fn "onClose.step6" == [("expr", "readModes.erase.count", "1"), ("expr", "readModes.erase.depth", "0")] &&
+  count (lastSyncSection (fn "onClose")) (fun e => e == ("erase", "readModes", "syncMutex")) == 1
+/-- T8 / FC02a: the first critical section of `setReadMode` returns (`true`, a vacuous success) for a session whose `receiveBuffers`
+entry is a closed tombstone — unconditionally (brace depth of the section) and BEFORE it reads or writes `readModes`: no mode is registered again for a
+closed id while its tail is buffered (`Model.SyncRecv.setModeS`, the `tomb` branch) -/
+def setReadModeSkipsTombstone : Bool :=
+  fn "setReadMode.tombGuard" == [("expr", "closed-tombstone-returns-true-first", "1")] &&
+  before (fn "setReadMode") ("read", "closed", "syncMutex") ("read", "readModes", "syncMutex")
+def c03SkeletonPinned : Bool :=
+  fn "onData" == expOnData && fn "receiveSync" == expReceiveSync && fn "setReadMode" == expSetReadMode &&
+  lastSyncSection (fn "onClose") == expOnCloseTail
+
+/-- `receiveSyncCancellable` is the loop the wrapper model (`Model/SyncRecvW.lean`) mirrors: entry token check; loop head = deadline
+test, token test, `remaining <= 0` → leave; ONE `receiveSync(sid, buffer, len, min(remaining, 100 ms))` per iteration; its result is
+returned unless it is `Timeout`; after the loop `Timeout`. Five `return`s, no lock of its own. -/
+def recvWrapperShape : Bool :=
+  fn "receiveSyncCancellable" ==
+    [("read", "token.isCancelled", ""), ("return", "err:Cancelled", ""), ("const", "subInterval=100", ""), ("read", "token.isCancelled", ""),
+     ("return", "err:Cancelled", ""), ("break", "", ""), ("call", "receiveSync", ""), ("return", "result", ""), ("return", "result", ""),
+     ("return", "err:Timeout", "")] &&
+  fn "receiveSyncCancellable.args" ==
+    [("expr", "subInterval", "std::chrono::milliseconds{100}"), ("expr", "deadline", "std::chrono::steady_clock::now()+timeout"),
+     ("expr", "remaining", "std::chrono::duration_cast<std::chrono::milliseconds>(deadline-std::chrono::steady_clock::now())"),
+     ("expr", "subTimeout", "std::min(remaining,subInterval)"), ("expr", "result", "receiveSync(sid,buffer,len,subTimeout)"),
+     ("expr", "while", "std::chrono::steady_clock::now()<deadline"), ("expr", "if:token.isCancelled()", "return:err:Cancelled"),
+     ("expr", "if:token.isCancelled()", "return:err:Cancelled"), ("expr", "if:remaining<=std::chrono::milliseconds::zero()", "break"),
+     ("expr", "if:result.isOk()", "returnresult"), ("expr", "if:result.error().code!=TransportError::Timeout", "returnresult"),
+     ("expr", "returns", "5"), ("expr", "after-loop", "return:err:Timeout")]
+/-- "in time" tie of `receiveSync`: it waits on `buf->cv` under the caller's lock until `now() + timeout` (saturated, FC03b) and
+answers `Timeout` exactly when the wait was not signalled -/
+def recvTimingArgs : Bool :=
+  fn "receiveSync.args" ==
+    [("expr", "deadline", "std::chrono::steady_clock::now()+detail::clampSyncTimeout(timeout)"), ("expr", "wait_until.lock", "lk"),
+     ("expr", "wait_until.deadline", "deadline"), ("expr", "not-signalled", "return:Timeout")]
+/-- FC03b: every synchronous call saturates its timeout (100 years) before it enters clock arithmetic, so
+`std::chrono::milliseconds::max()` ("no timeout") cannot wrap the deadline into the past -/
+def recvTimeoutsSaturate : Bool :=
+  (fn "syncTimeoutClamp").contains ("expr", "receiveSync", "1") && (fn "syncTimeoutClamp").contains ("expr", "receiveSyncCancellable", "1") &&
+  (fn "syncTimeoutClamp").contains
+    ("expr", "clampSyncTimeout", "constexprstd::chrono::millisecondskMaxSyncWait{std::chrono::hours{24*365*100}};returntimeout>kMaxSyncWait?kMaxSyncWait:timeout;")
+def connectTimeoutsSaturate : Bool :=
+  (fn "syncTimeoutClamp").contains ("expr", "connectSync", "1") && (fn "syncTimeoutClamp").contains ("expr", "connectSyncCancellable", "1")
+
 /-! ### C04: register-before-completion and the single unlock window -/
 /-- `syncMutex` is held continuously from before `engine->connect` through registration, the guard and into the wait -/
 def connectLockHeld : Bool :=
